@@ -300,7 +300,7 @@ int main() {
             if bad:
                 confirmed, rec['mismatch'] = True, bad
     rec['confirmed'] = confirmed
-    d = os.path.join(os.path.dirname(os.path.dirname(check.work)), 'replays')
+    d = check.replay_dir
     os.makedirs(d, exist_ok=True)
     path = os.path.join(d, re.sub(r'[^\w.-]+', '_', ob.name) + '.replay.json')
     json.dump(rec, open(path, 'w'), indent=1)
